@@ -67,7 +67,7 @@ def read_cells_call(native, k1, k2):
             sheets[s] = Obj(_cells=cells) if native else Stub('sheet', _cells=cells)
         book = Book(sheets)
         book.sheetnames = [s1, s2]
-        rd = object.__new__(reader.Reader)
+        rd = reader.Reader('workbook.xlsx')            # the real constructor only stores the file name
         rd.book = book
 
         def XLFormula(formula, sheet_name=None, *a, **k):
@@ -175,7 +175,7 @@ def names_call(native, hidden2):
         d1 = mk(name=n1, value=t1, hidden=None)
         d2 = mk(name=n2, value=t2, hidden=(True if hidden2 else None))
         book = Obj(defined_names={'k1': d1, 'k2': d2}) if native else Stub('book', defined_names={'k1': d1, 'k2': d2})
-        rd = object.__new__(reader.Reader)
+        rd = reader.Reader('workbook.xlsx')            # the real constructor only stores the file name
         rd.book = book
         return rd.read_defined_names() if native else it.call(reader.Reader.read_defined_names, [rd], {})
     if native:
